@@ -30,6 +30,8 @@ Fixpoint gpub_ok (w : view) (n k : Z) (cs qlens : list Z) : bool :=
   | _, _ => false
   end.
 
+Definition queue_eqb (a b : queue) : bool := list_eqb (pair_eqb Z.eqb zlist_eqb) a b.
+
 Definition ok_ev (w : view) (e : ev) : bool :=
   negb (dead w) &&
   (if lastfull w then match e with VDeadlock => true | _ => false end
@@ -67,6 +69,9 @@ Definition ok_ev (w : view) (e : ev) : bool :=
          | (n', a') :: _ => (n =? n') && zlist_eqb a a'
          | [] => false
          end
+     | VDrop c runs =>
+         (* the owner receives a prefix of the pending events, in order *)
+         queue_eqb (expand runs) (firstn (length (expand runs)) (queue_of w c))
      | VDeadlock => false   (* blocking is only legal right after a send on a full queue *)
      | VOp | VSubFail | VUnsub _ _ _ | VUnsubCb _ _ _ | VAmbig | VClear _ | VEnq _ _ _ | VNop => true
      end).
